@@ -35,6 +35,8 @@ type checkDef struct {
 
 var defs = map[string]checkDef{
 	"C01": {Engine: "A", Pkg: "./enga", MinEvals: 200},
+	"C02": {Engine: "A", Pkg: "./enga", MinEvals: 1000},
+	"C03": {Engine: "A", Pkg: "./enga", MinEvals: 200},
 }
 
 var home = "/verif"
@@ -236,6 +238,7 @@ func merge(prop, tier string, seed int64, def checkDef, results []workerResult, 
 	var samples []any
 	var viol []vkit.Witness
 	nviol := 0
+	violKinds := map[string]int{}
 	known := map[string]int{}
 	knownSample := map[string]vkit.Witness{}
 	var inconclusive []string
@@ -262,6 +265,9 @@ func merge(prop, tier string, seed int64, def checkDef, results []workerResult, 
 		}
 		viol = append(viol, p.Violations...)
 		nviol += p.NViolations
+		for k, v := range p.ViolKinds {
+			violKinds[k] += v
+		}
 		for k, v := range p.Known {
 			known[k] += v
 			if _, ok := knownSample[k]; !ok {
@@ -316,7 +322,10 @@ func merge(prop, tier string, seed int64, def checkDef, results []workerResult, 
 		b, _ := json.MarshalIndent(w, "", " ")
 		os.WriteFile(path, b, 0o644)
 		fmt.Printf("VIOLATION property=%s replay=%s\n", prop, path)
-		fmt.Printf("  kind=%s case=%d %s\n", w.Kind, w.Case, vkit.Clip(w.Detail, 600))
+		fmt.Printf("  kind=%s class=%q case=%d %s\n", w.Kind, w.Class, w.Case, strconv.QuoteToASCII(vkit.Clip(w.Detail, 600)))
+	}
+	if len(violKinds) > 0 {
+		fmt.Printf("violations by kind/class: %v\n", violKinds)
 	}
 	for _, m := range inconclusive {
 		fmt.Printf("INCONCLUSIVE property=%s %s\n", prop, vkit.Clip(m, 3000))
